@@ -19,7 +19,12 @@ def run_one(m):
 	try:
 		repo = os.path.join(tmp, 'repo')
 		subprocess.run(['rsync', '-a', '--exclude', '.git', '--exclude', 'target', '--exclude', 'fuzz', REPO + '/', repo + '/'], check=True)
-		for e in m['edits']:
+		if m.get('patch'):
+			# an independently written behaviour-preserving change kept as a diff (selftest/refactors/<id>.diff)
+			r = subprocess.run(['git', 'apply', '-p1', os.path.join(HERE, m['patch'])], cwd=repo, stdout=subprocess.PIPE, stderr=subprocess.STDOUT, text=True)
+			if r.returncode != 0:
+				res['outcome'] = 'stale'; res['note'] = 'patch does not apply: ' + r.stdout[-200:]; return res
+		for e in m.get('edits', []):
 			p = os.path.join(repo, e['file'])
 			src = open(p).read()
 			n = src.count(e['find'])
